@@ -312,6 +312,7 @@ class Scratch:
                 if fn is None:
                     raise Undecided(f"unknown extractor {m.group(1)}")
                 src = src.replace(m.group(0), fn(REPO))
+            src = vextract.expand_hoists(src, REPO)
             wrappers = []
             for ob in obs:
                 if (ob.contract or ob.stub_verified) and not attrs:
